@@ -4,6 +4,9 @@ import json, sys, os
 
 CHECKS = {
  # id: (category, technique, design_ref, text, note)
+ "C01": ("exploration", "bounded-exhaustive enumeration of expression trees x parenthesisations x positions; emitted SQL re-parsed with ClickHouse priorities and evaluated over all row valuations against the PQL tree", "DESIGN.md §4 C01",
+         "Every expression tree over 36 node kinds up to N internal nodes, in three parenthesisation modes, at every expression position, is compiled; the SQL expression found at the position is evaluated by an independent evaluator on every valuation of its columns over small domains (NULL included) and must equal the PQL tree's value (and fail where the PQL tree is ill-typed).",
+         "shared primitive semantics (DESIGN.md appendix A); SQL read with ClickHouse operator priorities; unknown functions interpreted injectively"),
  "C04": ("exploration", "bounded-exhaustive enumeration of literal/name contents at every position kind, compared token-by-token under two independent SQL lexers", "DESIGN.md §4 C04",
          "32 skeletons (one per position where a string, name or number can occur) x every content over a 19-symbol adversarial alphabet up to length n (and a quote/backslash sub-alphabet to a larger length) x every PQL spelling: the emitted SQL must have the same token kinds and identical non-hole tokens as the skeleton with a neutral content, and the hole tokens must decode (ClickHouse rules; standard rules when no backslash) to the PQL value.",
          "sqlx lexers implement standard and ClickHouse quoting rules; ClickHouse is the target dialect for decoding"),
